@@ -9,7 +9,8 @@
 From Coq Require Import List ZArith Bool Arith Lia Ring InitialRing.
 Import ListNotations.
 From Coq Require Import Sorted.
-From QV Require Import Model.C20 Proofs.C20 Proofs.C20_enum Proofs.C20_alg.
+From Coq Require Import NArith.
+From QV Require Import Model.C20 Proofs.C20 Proofs.C20_enum Proofs.C20_alg Proofs.C20_had.
 Open Scope Z_scope.
 
 (* ---------------------------------------------------------------- ladder *)
@@ -359,3 +360,30 @@ Theorem C20_w_ghz_positions_upto_10 :
                        | _ => false end) (seq 1 10) = true.
 Proof. vm_compute. reflexivity. Qed.
 Print Assumptions C20_w_ghz_positions_upto_10.
+
+(* ------------------------------------------------- hadamard_transform(N) *)
+(* for every number of qubits n and all indices below 2^n, the sign the code
+   computes, (-1) ** _hamming_distance(i & j) with the Kernighan bit-count
+   loop, is the (i, j) entry of the n-fold tensor power of [[1,1],[1,-1]]
+   (the common factor 2^(-n/2) is outside the model) *)
+Theorem C20_hadamard_is_tensor_power :
+  forall n i j, (i < 2 ^ N.of_nat n)%N -> (j < 2 ^ N.of_nat n)%N ->
+    hadamard_sign i j = hpow n i j.
+Proof. exact hadamard_sign_is_tensor_power. Qed.
+Print Assumptions C20_hadamard_is_tensor_power.
+
+(* _hamming_distance counts the set bits of every non-negative integer (no
+   width limit) and the table is symmetric (literal isherm=True) *)
+Theorem C20_hamming_distance_counts_bits :
+  forall x, hamming_distance x = popN x.
+Proof. exact hamming_distance_pop. Qed.
+Print Assumptions C20_hamming_distance_counts_bits.
+
+Theorem C20_hadamard_symmetric : forall i j, hadamard_sign i j = hadamard_sign j i.
+Proof. exact hadamard_sign_sym. Qed.
+Print Assumptions C20_hadamard_symmetric.
+
+Example C20_nonvacuous_hadamard :
+  (301 < 2 ^ N.of_nat 9)%N /\ (511 < 2 ^ N.of_nat 9)%N /\
+  hadamard_sign 301 511 = -1 /\ hpow 9 301 511 = -1 /\ hamming_distance 301 = 5%nat.
+Proof. repeat split; try reflexivity. Qed.
